@@ -67,10 +67,14 @@ def parseEvent (toks : List String) : Option (Option (Nat × In)) :=
 
 def words (s : String) : List String := (s.splitOn " ").filter (· ≠ "")
 
-/-- insertion sort of observations by (time, text) -/
+/-- first word of an observation's text -/
+def kindOf (s : String) : String := (s.splitOn " ").headD ""
+
+/-- stable insertion sort of observations by (time, kind): observations of the same kind within one
+    instant keep their order -/
 def insertObs (x : Nat × String) : List (Nat × String) → List (Nat × String)
   | [] => [x]
-  | y :: r => if x.1 < y.1 ∨ (x.1 = y.1 ∧ x.2 ≤ y.2) then x :: y :: r else y :: insertObs x r
+  | y :: r => if x.1 < y.1 ∨ (x.1 = y.1 ∧ kindOf x.2 ≤ kindOf y.2) then x :: y :: r else y :: insertObs x r
 
 def sortObs (l : List (Nat × String)) : List (Nat × String) := l.foldr insertObs []
 
